@@ -62,6 +62,23 @@ def _mbt(ctx):
         if len({s.get("st") for s in b if "st" in s}) > 1:
             ctx.nontrivial({"b": b})
     ctx.sample({"kind": "tlc-behaviour", "steps": behs[0][:8]})
+    # vacuity guard: every disjunct of Acquire/Record must have been replayed on the real code
+    seen = set()
+    for b in behs:
+        prev = "closed"
+        for s in b[1:]:
+            if s["a"] == "acq":
+                seen.add("acq:%s->%s:%s" % (prev, s["st"], s["ok"]))
+            elif s["a"] == "rec":
+                seen.add("rec:stale" if s["stale"] else "rec:%s->%s" % (prev, s["st"]))
+            if "st" in s:
+                prev = s["st"]
+    need = {"acq:closed->closed:True", "acq:open->open:False", "acq:open->halfopen:True", "acq:halfopen->halfopen:True",
+            "acq:halfopen->halfopen:False", "acq:halfopen->open:False", "rec:stale", "rec:closed->open", "rec:closed->closed",
+            "rec:halfopen->open", "rec:halfopen->closed", "rec:halfopen->halfopen"}
+    ctx.cov["action_classes_replayed"] = sorted(seen)
+    if need - seen:
+        ctx.inconclusive("C08 behaviours never exercised: %s" % sorted(need - seen))
     for m in [x for x in recs if x.get("k") == "mismatch"]:
         pol = m["behaviour"][0]["pol"]
         ctx.violation({"kind": "replay", "what": m["what"].split(",")[0], "wt": pol["wt"]},
